@@ -6,7 +6,9 @@
 //! The harness only measures and converts units; every law that is checked lives in TLA+.
 
 mod geom;
+mod hist;
 mod obs;
+mod oracle;
 mod optrace;
 mod states;
 mod suites;
@@ -96,6 +98,11 @@ fn main() {
         "opt" => cmd_opt(&m),
         "debug-state" => geom::debug_state(m.get("line").expect("--line")),
         "pairs" => geom::pairs(m.get("in").expect("--in"), m.get("out").expect("--out")),
+        "c01-histories" => hist::c01_histories(
+            m.get("out").expect("--out"),
+            m.get("tier").map(|t| t == "thorough").unwrap_or(false),
+            m.get("seed").and_then(|s| s.parse().ok()).unwrap_or(1),
+        ),
         "tables" => geom::tables(m.get("out").expect("--out")),
         "crystal" => geom::crystal(m.get("in").expect("--in"), m.get("out").expect("--out")),
         _ => {
